@@ -121,6 +121,20 @@ def make_node(rule_name, element=None, child_names=(), content="__canonical__", 
     return n
 
 
+_LONG_LIVED = {}
+
+
+def long_lived_node(rule_name, element, kids):
+    """One node object per (rule, element, children) that lives as long as the process and is edited in place between validations
+    (an editor's node): what was validated on it before must not matter.  -> (node, whether it is new)"""
+    key = (rule_name, element, tuple(kids))
+    n = _LONG_LIVED.get(key)
+    if n is None:
+        n = _LONG_LIVED[key] = make_node(rule_name, element, kids)
+        return n, True
+    return n, False
+
+
 def validate_as(rule_name, node, errs=None, via="auto"):
     """Runs the real single-node validation.  via='node' -> validate.node (needs a mapped name);
     via='rule' -> Rule(rule_name).validate_rule."""
